@@ -21,6 +21,9 @@ def norm_text(s):
     return re.sub(r'\s+', ' ', str(s)).strip()
 
 
+UNREC_RX = re.compile(r'not found|not recognised|unrecognised|piece missing|missing intermediate|no such expression|not evaluable|not of the form|unexpected shape|were not both found|not understood|no assignment to|does not assign|no store into|loop not found|not a single|cannot be located|no unconditional|= \\?$|= None$', re.I)
+
+
 class Obligation:
     __slots__ = ('rule', 'construct', 'ok', 'detail', 'file', 'line', 'what')
 
@@ -96,6 +99,17 @@ class Report:
                 kf.append(o)
             else:
                 viol.append(o)
+        # a failed obligation whose construct could not even be located says "the code no longer has the shape this rule
+        # was written for", not "the code is wrong": when nothing else failed the run ends as analysis-broken (exit 2), never as
+        # a violation.  One recognised construct with wrong content is enough for a violation.
+        unrec = [o for o in viol if UNREC_RX.search(o.detail or '')]
+        self.unrecognised = unrec
+        if viol and len(unrec) == len(viol) and not os.environ.get('VERIF_STRICT_SHAPES'):
+            for o in unrec[:12]:
+                print('  UNRECOGNISED %s %s:%d [%s] %s -- %s' % (o.rule, o.file, o.line, o.construct, o.what, o.detail))
+            only_unrecognised = True
+        else:
+            only_unrecognised = False
         for o in kf:
             print('KNOWN-FINDING: property=%s %s %s:%d %s -- %s' % (self.pid, o.rule, o.file, o.line, o.construct,
                                                                    known_keys[o.key()].get('description', o.detail)))
@@ -141,6 +155,9 @@ class Report:
                  len(self.obls) - len(failed), len(failed), len(kf), len(self.notes), time.time() - self.t0))
         for r, n in sorted(self.analysed['rule_instances'].items()):
             print('   rule %-28s %4d instance(s)' % (r, n))
+        if viol and only_unrecognised:
+            print('ANALYSIS-ERROR property=%s: %d construct(s) the rules look for were not recognised (restructured code); nothing that was recognised is wrong - cannot decide' % (self.pid, len(unrec)))
+            return 2
         if viol:
             replay = os.path.join(EVID_DIR, self.pid + '.violation.json')
             with open(replay, 'w') as f:
